@@ -23,6 +23,7 @@ LENSES = {
     "C01": "c01",
     "C02": "c02",
     "C03": "c03",
+    "C04": "c04",
     "C05": "c05",
     "C06": "c06",
     "C07": "c07",
